@@ -109,6 +109,15 @@ def _chunk(work):
     return out
 
 
+def _chunk1(work):
+    """One observation per work item (or None), order preserved."""
+    out = []
+    for w in work:
+        r = _chunk([w])
+        out.append(r[0] if r else None)
+    return out
+
+
 def singles(options):
     """One option away from the default, every value."""
     out = []
@@ -153,7 +162,7 @@ def run(ctx):
     logging.disable(logging.CRITICAL)
     texts = [(s, {"src": "grammar", "t": t}) for s, t in terms.items()]
     texts += [(s, {"src": "identity"}) for s in producers.corpus_identity()]
-    # fixed universe: the (text, dialect) pairs with h % 6 == 0; thorough runs all of it, quick an eighth of it chosen by the seed
+    # fixed universe: the (text, dialect) pairs with h % 6 == 0; thorough runs all of it, quick a sixteenth of it chosen by the seed
     ndraw = 10 if ctx.thorough else 6
     work = []
 
@@ -166,7 +175,7 @@ def run(ctx):
     for s, meta in texts:
         for d in dialects:
             hv = gram.h(s, d, "c07")
-            if hv % 6 == 0 and (ctx.thorough or (hv // 6) % 8 == ctx.seed % 8):
+            if hv % 6 == 0 and (ctx.thorough or (hv // 6) % 16 == ctx.seed % 16):
                 add(s, d, meta)
                 if gram.h(s, d, "cm") % 4 == 0:
                     for cv in gram.comment_variants(s, d, 40)[:: (1 if ctx.thorough else 3)]:
@@ -191,30 +200,36 @@ def run(ctx):
             ctx.nontrivial((c["meta"]["sql"], c["meta"]["dialect"], optname(c["meta"]["o"])))
         if v != "OK":
             bad.append((c, v))
-    # responsible option(s): the failing combination restricted to one / two options at a time
-    probes, owner = [], []
-    for bi, (c, v) in enumerate(bad[:400]):
-        o = c["meta"]["o"]
-        diff = [k for k in DEFAULT if o[k] != DEFAULT[k]]
-        for k in diff:
-            for extra in ([], ["pretty"]):
-                oo = {**DEFAULT, k: o[k], **({"pretty": o["pretty"]} if extra else {})}
-                oo["erased"] = sorted((set() if oo["comments"] else {"comments"}) | (set() if oo["identify"] == "false" else {"quoted"}) | (set() if oo["normalize_functions"] == "upper" else {"function_case"}))
-                probes.append({"sql": c["meta"]["sql"], "dialect": c["meta"]["dialect"], "opts": [oo]})
+    # responsible options: greedy reduction, one option at a time in a fixed order, the acceptor deciding each step
+    def erased_of(oo):
+        return sorted((set() if oo["comments"] else {"comments"}) | (set() if oo["identify"] == "false" else {"quoted"}) | (set() if oo["normalize_functions"] == "upper" else {"function_case"}))
+
+    cur = {bi: {k: c["meta"]["o"][k] for k in DEFAULT} for bi, (c, v) in enumerate(bad[:1500])}
+    for rnd, k in enumerate(DEFAULT):
+        probes, owner = [], []
+        for bi, oo in cur.items():
+            if oo[k] != DEFAULT[k]:
+                cand = {**oo, k: DEFAULT[k]}
+                cand["erased"] = erased_of(cand)
+                probes.append({"sql": bad[bi][0]["meta"]["sql"], "dialect": bad[bi][0]["meta"]["dialect"], "opts": [cand]})
                 owner.append(bi)
-    blame = {}
-    if probes:
-        pc = []
-        for bi, w in zip(owner, probes):
-            for c in _chunk([w]):
-                c["owner"] = bi
-                pc.append(c)
-        pv = judge(ctx, "RoundTrip", pc, "optmin", per_shard=10000, strip=("meta", "owner"), cfg_text=CFG)
-        for c in pc:
-            if pv[c["id"]][0] != "OK":
-                name = optname(c["meta"]["o"])
-                if c["owner"] not in blame or len(name) < len(blame[c["owner"]]):
-                    blame[c["owner"]] = name
+        if not probes:
+            continue
+        pc, po = [], []
+        chunks = [list(range(len(probes)))[i::32] for i in range(32)]
+        with ProcessPoolExecutor(max_workers=16) as ex:
+            for ids, outs in zip([c for c in chunks if c], ex.map(_chunk1, [[probes[i] for i in c] for c in chunks if c])):
+                for i, o in zip(ids, outs):
+                    if o is not None:
+                        pc.append(o)
+                        po.append(owner[i])
+        if not pc:
+            continue
+        pv = judge(ctx, "RoundTrip", pc, f"optmin{rnd}", per_shard=10000, strip=("meta",), cfg_text=CFG)
+        for c, bi in zip(pc, po):
+            if pv[c["id"]][0] == bad[bi][1]:
+                cur[bi] = {kk: c["meta"]["o"][kk] for kk in DEFAULT}
+    blame = {bi: optname(oo) for bi, oo in cur.items()}
     examples = {}
     for bi, (c, v) in enumerate(bad):
         m = c["meta"]
